@@ -6,8 +6,8 @@ an anchor text that no longer occurs exactly once makes the variant STALE (repor
 VARIANTS = []
 
 
-def V(name, prop, expect, rule=None, edits=None, revert=None, paths=None, note="", patch=None):
-    VARIANTS.append(dict(name=name, property=prop, expect=expect, rule=rule, edits=edits or [], revert_commit=revert, paths=paths, note=note, patch=patch))
+def V(name, prop, expect, rule=None, edits=None, revert=None, paths=None, note="", patch=None, transforms=None):
+    VARIANTS.append(dict(name=name, property=prop, expect=expect, rule=rule, edits=edits or [], revert_commit=revert, paths=paths, note=note, patch=patch, transforms=transforms))
 
 
 SC = "scenario/scenario.py"
@@ -315,6 +315,9 @@ V("c18-n-inplace-division", "C18", "pass", edits=[(ADF, "        self.model_weig
 FTF = "dynamics/integration_events/finite_thrust.py"
 CLF = "dynamics/celestial.py"
 V("c15-revert-F13-twobody-thrust", "C15", "violation", "C15.R3", revert="43d5466")
+V("c15-revert-F15-restart-increment", "C15", "violation", "C15.R4", revert="40f63cb")
+V("c15-n-restart-constant-increment", "C15", "pass", edits=[(CLF, "    return max(spacing(time), 2 * finfo(float).resolution)", "    return max(spacing(time), 1e-14)")])
+V("c15-restart-half-tolerance", "C15", "violation", "C15.R4", edits=[(CLF, "    return max(spacing(time), 2 * finfo(float).resolution)", "    return max(spacing(time), 0.5 * finfo(float).resolution)")])
 V("c15-rearm-inclusive-end", "C15", "violation", "C15.R2", edits=[(CLF, "and event.start_time < initial_time < event.end_time", "and event.start_time < initial_time <= event.end_time")])
 V("c15-rearm-any-event", "C15", "violation", "C15.R2", edits=[(CLF, "                    isinstance(event, ScheduledFiniteThrust)\n                    and event.start_time", "                    True\n                    and event.start_time")])
 V("c15-thrust-not-cleared", "C15", "violation", "C15.R2", edits=[(CLF, "        events = []\n        self.finite_thrust = None\n", "        events = []\n")])
@@ -437,3 +440,41 @@ _TB_TABLE = 'THIRD_BODY_LOOKUP = {"sun": Sun, "moon": Moon, "jupiter": Jupiter, 
 V("c13-n-third-body-table", "C13", "pass", edits=[(SPF, "def thirdBodyFactory(", _TB_TABLE), (SPF, _TB_OLD, "    third_bodies = {}\n" + _TB_NEW)])
 V("c13-third-body-table-shared-default", "C13", "violation", "C13.R1", edits=[(SPF, "def thirdBodyFactory(configuration: list[str]) -> dict:", _TB_TABLE + "configuration: list[str], third_bodies: dict = {}) -> dict:"), (SPF, _TB_OLD, _TB_NEW)])
 V("c13-third-body-table-wrong-class", "C13", "violation", "C13.R1", edits=[(SPF, "def thirdBodyFactory(", _TB_TABLE.replace('"moon": Moon', '"moon": Sun')), (SPF, _TB_OLD, "    third_bodies = {}\n" + _TB_NEW)])
+
+_PE_OLD = "        self._pending_epochs[self.clock.datetime_epoch.isoformat(timespec=\"microseconds\")] = (\n            self.current_julian_date\n        )\n"
+_PE_HELPER = "    def _trackCurrentEpoch(self) -> None:\n        self._pending_epochs[self.clock.datetime_epoch.isoformat(timespec=\"microseconds\")] = (\n            self.clock.julian_date_epoch\n        )\n\n    def stepForward(self) -> None:"
+V("c09-n-pending-epoch-helper", "C09", "pass", edits=[(SC, _PE_OLD, "        self._trackCurrentEpoch()\n"), (SC, "    def stepForward(self) -> None:", _PE_HELPER)])
+V("c09-pending-epoch-recomputed-jd", "C09", "violation", "C09.R6", edits=[(SC, _PE_OLD, "        self._pending_epochs[self.clock.datetime_epoch.isoformat(timespec=\"microseconds\")] = (\n            datetimeToJulianDate(self.clock.datetime_epoch)\n        )\n"), (SC, "from ..physics.time.stardate import JulianDate\n", "from ..physics.time.stardate import JulianDate, datetimeToJulianDate\n")])
+
+SBF = "sensors/sensor_base.py"
+V("c14-az-mask-sorted", "C14", "violation", "C14.R6", edits=[(SBF, "        self.az_mask = const.DEG2RAD * az_mask\n", "        self.az_mask = const.DEG2RAD * sort(az_mask)\n"), (SBF, "from numpy import array, cos, sin, zeros_like", "from numpy import array, cos, sin, sort, zeros_like")])
+V("c02-az-mask-sorted", "C02", "violation", "C02.R10", edits=[(SBF, "        self.az_mask = const.DEG2RAD * az_mask\n", "        self.az_mask = const.DEG2RAD * sort(az_mask)\n"), (SBF, "from numpy import array, cos, sin, zeros_like", "from numpy import array, cos, sin, sort, zeros_like")])
+V("c14-n-el-mask-sorted", "C14", "pass", edits=[(SBF, "        self.el_mask = const.DEG2RAD * el_mask\n", "        self.el_mask = const.DEG2RAD * sort(el_mask)\n"), (SBF, "from numpy import array, cos, sin, zeros_like", "from numpy import array, cos, sin, sort, zeros_like")])
+V("c14-az-mask-config-flipped", "C14", "violation", "C14.R6", edits=[("sensors/radar.py", "            az_mask=array(sensor_config.azimuth_range),", "            az_mask=array(sensor_config.azimuth_range)[::-1],")])
+V("c06-revert-F16-fallback-upper-factor", "C06", "violation", "C06.R6", revert="a0c7960")
+V("c06-ukf-scipy-cholesky-import", "C06", "violation", "C06.R6", edits=[("estimation/kalman/unscented_kalman_filter.py", "from numpy.linalg import LinAlgError, cholesky, inv\nfrom scipy.linalg import block_diag\n", "from scipy.linalg import LinAlgError, block_diag, cholesky, inv\n")])
+
+OPF = "sensors/optical.py"
+V("c02-n-host-state-alias", "C02", "pass", edits=[(OPF, "        boresight_eci = tgt_eci_state - self.host.eci_state\n", "        sen_eci_state = self.host.eci_state\n        boresight_eci = tgt_eci_state - sen_eci_state\n"), (OPF, "            tgt_eci_state[:3],\n            self.host.eci_state[:3],\n        )", "            tgt_eci_state[:3],\n            sen_eci_state[:3],\n        )")])
+V("c02-limb-test-on-target-state", "C02", "violation", "C02.R4", edits=[(OPF, "            target_is_obscured = checkSpaceSensorEarthLimbObscuration(\n                self.host.eci_state,", "            target_is_obscured = checkSpaceSensorEarthLimbObscuration(\n                tgt_eci_state,")])
+V("c02-n-sun-local-renamed", "C02", "pass", edits=[(OPF, "sun_eci_position", "sun_pos", "all")], note="replace-all rename of a local")
+
+# ------------------------------------------------------------------------------------ whole-package neutral transformations
+for _i in range(1, 21):
+    V(f"c{_i:02d}-n-all-locals-renamed-comparisons-mirrored", f"C{_i:02d}", "pass", transforms=["rename_locals", "flip_comparisons"], note="every function-local renamed, every call-free comparison mirrored, sources re-emitted by ast.unparse")
+
+OUF = "physics/orbits/utils.py"
+_ST_OK = "    if 1e-6 < abs(psi) < 1e-2:\n        c2 = (1 - psi / 12 * (1 - psi / 30 * (1 - psi / 56 * (1 - psi / 90)))) / 2\n        c3 = (1 - psi / 20 * (1 - psi / 42 * (1 - psi / 72 * (1 - psi / 110)))) / 6\n    elif psi > 1e-6:  # Elliptical"
+V("c03-n-stumpff-series-window", "C03", "pass", edits=[(OUF, "    if psi > 1e-6:  # Elliptical", _ST_OK)], note="an exact Maclaurin window is the same function")
+V("c03-stumpff-series-wrong-coefficient", "C03", "violation", "C03.R3", edits=[(OUF, "    if psi > 1e-6:  # Elliptical", _ST_OK.replace("psi / 20", "psi / 30"))])
+V("c03-stumpff-c3-limit", "C03", "violation", "C03.R3", edits=[(OUF, "    c3: float = 1.0 / 6.0", "    c3: float = 1.0 / 3.0")])
+
+SDF = "physics/time/stardate.py"
+V("c05-days2mdh-century-rule-without-400", "C05", "violation", "C05.R5", edits=[(SDF, "    if remainder(year - 1900, 4) == 0:\n        days_in_month[1] = 29", "    if remainder(year, 4) == 0 and remainder(year, 100) != 0:\n        days_in_month[1] = 29")])
+V("c05-n-days2mdh-full-gregorian-rule", "C05", "pass", edits=[(SDF, "    if remainder(year - 1900, 4) == 0:\n        days_in_month[1] = 29", "    if year % 4 == 0 and (year % 100 != 0 or year % 400 == 0):\n        days_in_month[1] = 29")])
+
+RWF = "tasking/rewards/rewards.py"
+_CCT = "def _cct(delta, stability, information, sensor):\n    stab = sign(stability)\n    return delta * (stab + information) - (1 - delta) * sensor\n\n\nclass CostConstrainedReward("
+V("c07-n-reward-helper", "C07", "pass", edits=[(RWF, "class CostConstrainedReward(", _CCT), (RWF, "        return self._delta * (sign(stability) + information) - (1 - self._delta) * sensor\n", "        return _cct(self._delta, stability, information, sensor)\n")])
+V("c07-reward-helper-gate-instead-of-sign", "C07", "violation", "C07.R5", edits=[(RWF, "class CostConstrainedReward(", _CCT.replace("sign(stability)", "stability > 0.0")), (RWF, "        return self._delta * (sign(stability) + information) - (1 - self._delta) * sensor\n", "        return _cct(self._delta, stability, information, sensor)\n")])
+V("c07-normalisation-global-guard", "C07", "violation", "C07.R5", edits=[("tasking/rewards/reward_base.py", "        for met in range(len(self.metrics)):\n            if metric_matrix[..., met].max() > 0.0:\n                metric_matrix[..., met] /= metric_matrix[..., met].max()\n", "        peaks = metric_matrix.reshape(-1, len(self.metrics)).max(axis=0)\n        if (peaks > 0.0).all():\n            metric_matrix /= peaks\n")])
